@@ -145,3 +145,16 @@ Theorem C10_source_NewIPv6Prefix : forall cx n ip mask, uses_prims cx -> bytes_o
   Some (Some (ret_res (spec_new_ipv6prefix ip mask) VBytes VNil)).
 Proof. exact src_NewIPv6Prefix_spec. Qed.
 Print Assumptions C10_source_NewIPv6Prefix.
+
+(* non-vacuity: values through the translated encoders and decoders *)
+Example C10_src_example :
+  src_run "NewInteger" 10 [VInt 258] = Some (Some (VBytes [0; 0; 1; 2]%N)) /\
+  src_run "Integer" 10 [VBytes [0; 0; 1; 2]%N] = Some (Some (VTup [VInt 258; VNil])) /\
+  src_run "Integer" 10 [VBytes [0; 1; 2]%N] = Some (Some (VTup [VInt 0; VErr])) /\
+  src_run "NewDate" 10 [VInt (-1)] = Some (Some (VTup [VNil; VErr])) /\
+  src_run "IPv6Prefix" 100 [VBytes [0; 21; 255; 255; 248]%N] =
+    Some (Some (VTup [VRec [VBytes ([255; 255; 248]%N ++ repeat 0%N 13); VBytes ([255; 255; 248]%N ++ repeat 0%N 13)]; VNil])) /\
+  src_run "IPv6Prefix" 100 [VBytes [0; 21; 255; 255; 252]%N] = Some (Some (VTup [VNil; VErr])) /\
+  src_run "NewIPv6Prefix" 100 [VRec [VBytes (repeat 255%N 16); VBytes ([255; 255; 248]%N ++ repeat 0%N 13)]] =
+    Some (Some (VTup [VBytes [0; 21; 255; 255; 248]%N; VNil])).
+Proof. repeat split; vm_compute; reflexivity. Qed.
